@@ -1,14 +1,6 @@
-HOOK_COMMITS = []
+HOOK_COMMITS = ["25b9903", "84839a7"]
 NOTES = ("Driver: vcheck.py (python3 stdlib) builds the property test binary (and server binaries) from /repo's working tree with -tags verif, "
          "runs the saved replays, then the generated campaigns as parallel processes seeded from VERIF_SEED, merges statistics into evidence/<id>.json. "
          "Exit 2 = inconclusive (build failure/timeout), never a violation. known_findings.json lists fixed/known defects.")
 _PENDING = "check not built yet in this session (work in progress; see DESIGN.md section 3 for the planned decision procedure)"
 NOT_APPLICABLE = {("C%02d" % i): _PENDING for i in range(1, 21)}
-META = {}
-META["C07"] = {
-    "engine": "lib-rapid",
-    "technique": "property-based round-trip testing (rapid shape generators per encoder branch; native go fuzz in thorough)",
-    "text": ("Generated columns/records/row batches are encoded and decoded through the exported codec entry points and must come back bit-identical; "
-             "encoder-mode coverage is measured. Exploration: finds counterexamples, never proves absence."),
-    "note": "Trusts Go's math.Float64bits comparison and the harness' own structural comparison; whole-file and WAL-frame parts are covered to the extent the evidence lists.",
-}
